@@ -100,6 +100,13 @@ def under_completion_predicate(body, blk):
         for r in sw.roots:
             if r.kind == 'call' and r.call.is_(*COMPLETION_PREDICATES):
                 return True
+            if r.kind == 'call' and r.call.is_(r'Option::<.*>::(is_some|is_none)$') and r.call.args:
+                if any(q.kind == 'call' and q.call.is_(*COMPLETION_PREDICATES) for q in provenance(body, r.call.args[0], r.call.bb, 'term', through=None)):
+                    return True
+        if sw.kind == 'enum':
+            rs = provenance(body, sw.place, sw.discr_site[0], sw.discr_site[1], through=None)
+            if any(q.kind == 'call' and q.call.is_(*COMPLETION_PREDICATES) for q in rs):
+                return True
     return False
 
 def k2(ctx, cfg, fs, table):
